@@ -301,6 +301,9 @@ class SQLiteTrigger(BaseTrigger):
         expected_last_execution: datetime | None = None,
     ) -> bool:
         with sqlite_conn(self.sqlite_db_path) as conn:
+            # Compare-and-swap: take the write lock before reading, otherwise two
+            # processes can both read the expected value and both "win" the update.
+            conn.execute("BEGIN IMMEDIATE")
             cursor = conn.execute(
                 f"SELECT last_cron_execution FROM {self.tables.CONDITIONS} WHERE condition_id = ?",
                 (condition_id,),
